@@ -190,6 +190,16 @@ func (w *World) resolveType(t *SType, from string) (types.Type, error) {
 			}
 			return nil, fmt.Errorf("unknown type %s", t.Name)
 		}
+		if strings.Contains(t.Pkg, "/") {
+			if p := w.ByPath[t.Pkg]; p != nil {
+				if obj := p.Scope().Lookup(t.Name); obj != nil {
+					if tn, ok := obj.(*types.TypeName); ok {
+						return tn.Type(), nil
+					}
+				}
+			}
+			return nil, fmt.Errorf("unknown type %s.%s", t.Pkg, t.Name)
+		}
 		cands := w.ByName[t.Pkg]
 		// prefer: first party, then std (no dot in first path element)
 		sort.SliceStable(cands, func(i, j int) bool { return pkgRank(cands[i].Path()) < pkgRank(cands[j].Path()) })
